@@ -6,6 +6,7 @@ import MosnVerif.Model.ConfigDir
 import MosnVerif.Model.ConfigPairs2
 import MosnVerif.Model.ConfigCb
 import MosnVerif.Drive.C19Order
+import MosnVerif.Drive.C19Laddr
 /-!
 Driver of C19.  `<esc>` = every byte outside [A-Za-z0-9_.-] as %XX; JSON is compared key-sorted and compact.
 
@@ -168,6 +169,8 @@ def run (caseToks impl : List String) : String :=
   | "dynupd" :: ops => MosnVerif.Drive.C12.mode ops impl
   -- order of the lists across dump and reload (Drive/C19Order.lean)
   | "order" :: rest => MosnVerif.Drive.C19Order.order rest impl
+  -- listener address forms through load, dump, reload (Drive/C19Laddr.lean)
+  | "laddr" :: rest => MosnVerif.Drive.C19Laddr.run rest impl
   | ["generic", s, w] =>
     match shapeOf s, getJson w, implPair impl with
     | some sh, some w, some im => verdict (cycle2 (decode sh) (encode sh) w) im
